@@ -73,7 +73,9 @@ CLAIMS.update({
             "per priority partition the totals; mean and p99 (numpy's linear rule, exact rationals) are over exactly the completed latencies; empty classes / empty runs give "
             "count 0 and undefined latency. Tie: run_simulator with recording workload, scheduler and executor wrappers; the history recounted by the Lean model is compared "
             "with the returned SimulatorStats and with every pipeline's recorded finish tick (= tick of its last operator's completion); uncontended pipelines finish in exactly "
-            "the ticks their operators need.", "Props/C06.lean; the 'completed exactly once at its last operator' clause is checked on the implementation (per-pipeline finish ticks), the closed-loop theorem for it is not proved"),
+            "the ticks their operators need.", "Props/C06.lean, Model/Sweep.lean: the completion bookkeeping of the main loop is modelled (`sweep`) with theorems: it never records a pipeline twice (consistency invariant kept by arrivals and sweeps), "
+            "records exactly the outstanding pipelines all of whose operators are COMPLETED in a tick with results, and completion is final so nothing is recorded later than the next sweep; tie: the model's finish ticks and "
+            "latencies for the run's history against the simulator's own records"),
     "C07": ("PARTIAL. Lean theorems are thin and by construction (the model is a function of its inputs, the generator's parameters contain no policy setting, the model has no identifier "
             "values). The decisive part is the tie: each configuration is executed in a fresh interpreter, under another PYTHONHASHSEED, after other simulations, and in the long-lived "
             "harness process; canonicalised event logs and statistics must be identical; workload independence of policy and seed sensitivity compared on arrival logs.",
